@@ -836,13 +836,14 @@ func RaceBody(env *Env, name string, iterations int) (finished int, stuck int, e
 			_ = ops.ExecImpl(st, o)
 		}
 		done := make(chan struct{}, len(scn.Threads))
+		yield := it%2 == 1
 		for _, prog := range scn.Threads {
 			prog := prog
 			go func() {
 				defer func() { _ = recover(); done <- struct{}{} }()
 				for _, o := range prog {
 					_ = callObs(st, o)
-					if it%2 == 1 {
+					if yield {
 						runtimeGosched()
 					}
 				}
